@@ -45,6 +45,10 @@ impl Ctx<'_> {
             return None;
         }
         self.used += 1;
+        if self.base.violation.rule == "process-abort" {
+            // The candidate must kill a process again: run it in a child.
+            return self.try_abort(plan, choices);
+        }
         let spec = RunSpec {
             prop: self.prop,
             tier: self.tier,
@@ -64,6 +68,38 @@ impl Ctx<'_> {
             .iter()
             .find(|v| v.rule == self.base.violation.rule && v.props.contains(&self.prop))
             .map(|v| (res.stats.trace_hash, v.detail.clone(), res.choices.clone()))
+    }
+}
+
+impl Ctx<'_> {
+    fn try_abort(&mut self, plan: &Value, choices: Option<&[u32]>) -> Option<(u64, String, Vec<u32>)> {
+        let dir = std::env::var("VERIF_DIR").unwrap_or_else(|_| "/verif".to_string());
+        let path = format!("{dir}/replays/.candidate-{}.json", std::process::id());
+        let doc = serde_json::json!({
+            "property": self.prop.name(),
+            "tier": self.tier.name(),
+            "base_seed": "0",
+            "run_index": self.base.index,
+            "run_seed": self.base.seed.to_string(),
+            "minimised": true,
+            "plan": plan,
+            "choices": choices.unwrap_or(&[]),
+            "violation": { "rule": "process-abort", "detail": "" },
+            "trace_hash": "0",
+        });
+        std::fs::write(&path, doc.to_string()).ok()?;
+        let exe = std::env::current_exe().ok()?;
+        let st = std::process::Command::new(exe)
+            .args(["replay", &path])
+            .env("VERIF_REPLAY_INNER", "1")
+            .stdout(std::process::Stdio::null())
+            .stderr(std::process::Stdio::null())
+            .status();
+        let _ = std::fs::remove_file(&path);
+        match st {
+            Ok(s) if crate::runner::died_abnormally(&s) => Some((0, self.base.violation.detail.clone(), choices.unwrap_or(&[]).to_vec())),
+            _ => None,
+        }
     }
 }
 
